@@ -697,6 +697,10 @@ def run(F, R, config=None):
     K.borrow_rule(R, lambda sub: c14.r13(F, sub), "C15-R7", "finalisation keeps the events of the phase the chain ended in: the (warm-up, sampling) event counts a Zarr "
                   "chain storage reports depend on its phase flag, so a trace that ends in warm-up is not trimmed to zero warm-up events (C14-R13 analysis)",
                   only_rules={"C14-R13"})
+    # "after flush returns, everything recorded so far is in the store": flush and finalize skip a chain whose slot is empty, so nothing but finalisation may empty it
+    if "parallel" in feats:
+        from . import c11
+        c11.r13(F, R, rid="C15-R10")
     R.assume("zarrs writes exactly the subset / chunk it is given; tokio's JoinSet::join_next returns None only when the set is empty")
     R.assume("chunk arithmetic for all sizes and store contents after a crash are value questions, not decided")
 
